@@ -103,6 +103,19 @@ theorem floor_monotone (n m : BitVec 64) (hnm : n.toInt ≤ m.toInt) :
     have : i < j + 1 := (Nat.pow_lt_pow_iff_right (by decide)).mp h'
     have : (2 : Nat) ^ i ≤ 2 ^ j := Nat.pow_le_pow_right (by decide) (by omega)
     exact_mod_cast this
+/-- the two regenerated functions agree: whatever `CeilToPowerOfTwo` and (for `n > 2`)
+    `FloorToPowerOfTwo` return is accepted by `IsPowerOfTwo` -/
+theorem roundings_are_pow2 (n : BitVec 64) (h : n.toInt ≤ 2 ^ 62) :
+    (∃ r, Gen.CeilToPowerOfTwo n = some r ∧ Gen.IsPowerOfTwo r = some true) ∧
+    (2 < n.toInt → ∃ r, Gen.FloorToPowerOfTwo n = some r ∧ Gen.IsPowerOfTwo r = some true) := by
+  constructor
+  · obtain ⟨r, hr, hp, _⟩ := Proofs.Arith.ceil_spec n h
+    obtain ⟨b, hb, hiff⟩ := Proofs.Arith.ispow2_spec r
+    exact ⟨r, hr, by rw [hb, hiff.mpr hp]⟩
+  · intro h2
+    obtain ⟨r, hr, _, hf⟩ := Proofs.Arith.floor_spec n
+    obtain ⟨b, hb, hiff⟩ := Proofs.Arith.ispow2_spec r
+    exact ⟨r, hr, by rw [hb, hiff.mpr (hf h2).1]⟩
 /-- byte-slice pool size class: the smallest class whose capacity `2^i` is at least the size -/
 theorem bs_index_spec (s : BitVec 32) (h1 : 1 ≤ s.toNat) (h2 : s.toNat ≤ 2 ^ 31) :
     ∃ i, Gen.bsIndex s = some i ∧ s.toNat ≤ 2 ^ i.toNat ∧ ∀ j : Nat, s.toNat ≤ 2 ^ j → i.toNat ≤ j :=
